@@ -132,6 +132,15 @@ def main() -> int:
         except Exception as e:
             infra_errors.append(f"{modname}: {type(e).__name__}: {e}\n{traceback.format_exc()[-1500:]}")
 
+    interp = None
+    if args.tier == "thorough" and not args.skip_lean and common.DRIVER_SAMPLES:
+        try:
+            interp = common.crosscheck_interpreter()
+            if interp["mismatches"]:
+                infra_errors.append(f"compiled driver and Lean's interpreter disagree: {interp['mismatches'][:2]}")
+        except Exception as e:      # noqa: BLE001
+            interp = {"error": str(e)}
+
     violations = [dict(v, stream=r.name, stream_module=getattr(r, "module", None)) for r in results for v in r.violations]
     disagreements = [dict(d, stream=r.name) for r in results for d in r.disagreements]
 
@@ -219,6 +228,7 @@ def main() -> int:
             "known_findings_hit": sorted(seen_known),
             "infrastructure_errors": infra_errors,
             "changed_anchor_files": changed_files,
+            "driver_vs_interpreter": interp,
         },
         "assumptions": spec.get("assumptions", []),
         "wall_s": round(time.time() - t0, 2),
